@@ -663,7 +663,11 @@ func c02Reject(c *Ctx) {
 		{"dnssl-empty-name", "parseDNSSL", "domain names non-empty", func(r rejection) bool {
 			return lastIs(r, func(a an.PathAtom) bool {
 				return cmpAtom(a, func(x, y *an.Expr, op token.Token) bool {
-					return x.Op == an.OpElem && y.IsConst(`""`) && op == token.EQL
+					// the name itself, or the name in wire form (idna.ToUnicode(strings.TrimSuffix(name, ".")))
+					isName := x.Op == an.OpElem || x.Contains(func(z *an.Expr) bool {
+						return z.Op == an.OpElem && len(z.Args) == 2 && z.Args[0].IsField("DomainNames")
+					})
+					return isName && y.IsConst(`""`) && op == token.EQL
 				})
 			})
 		}},
